@@ -841,7 +841,12 @@ impl Builtins {
                     }
                     elems.push(Rc::new(P(Int(num))));
                     pos_list.push(pos.clone());
-                    num += step;
+                    // Stop instead of overflowing when the range ends at
+                    // (or near) the largest integer.
+                    num = match num.checked_add(step) {
+                        Some(n) => n,
+                        None => break,
+                    };
                 }
             }
             _ => {
